@@ -38,7 +38,7 @@ from pywbem import CIMInstance, CIMInstanceName, CIMClass, CIMClassName, \
     CIMParameter, CIMProperty, CIMError, CIM_ERR_NOT_FOUND, \
     CIM_ERR_INVALID_PARAMETER, CIM_ERR_INVALID_CLASS, \
     CIM_ERR_METHOD_NOT_FOUND, cimtype, ToleratedSchemaIssueWarning
-from pywbem._utils import _format
+from pywbem._utils import _format, _eq_item
 from pywbem._nocasedict import NocaseDict
 
 from ._baseprovider import BaseProvider
@@ -345,7 +345,7 @@ class ProviderDispatcher(BaseProvider):
             prop_cls = creation_class.properties[pn]
 
             if prop_cls.qualifiers.get('key', False) and \
-                    prop_inst.value != instance[pn]:
+                    not _eq_item(prop_inst.value, instance[pn]):
                 raise CIMError(
                     CIM_ERR_INVALID_PARAMETER,
                     _format("Property {0!A} in the instance is a key "
@@ -371,7 +371,7 @@ class ProviderDispatcher(BaseProvider):
                     # inferred.
                     prop_cls = creation_class.properties[pn]
                     if prop_cls.qualifiers.get('key', False) and \
-                            prop_cls.value != instance[pn]:
+                            not _eq_item(prop_cls.value, instance[pn]):
                         raise CIMError(
                             CIM_ERR_INVALID_PARAMETER,
                             _format("Property {0!A} in PropertyList is a key "
